@@ -4,6 +4,7 @@ import (
 	"fmt"
 	"go/token"
 	"go/types"
+	"sort"
 	"strings"
 
 	"golang.org/x/tools/go/ssa"
@@ -291,23 +292,37 @@ func checkC17(c *Check) {
 	} else {
 		c.Undecidedf("TYPE-KINDS", "normalizeType", "-", "type normaliser not found")
 	}
-	// the recover barrier of Normalize sets its error result
+	// a recover barrier on the way from Normalize to the converters turns their
+	// panics into Normalize's error (the barrier's quality is decided by the guard
+	// engine: it must assign the guarded function's named error result)
 	if f := p.FuncByName("pkg/arrai/relmod.Normalize"); f != nil {
-		bs := recoverBarriers(f)
-		setsErr := false
-		for _, d := range bs {
-			if mc, ok := d.Call.Value.(*ssa.MakeClosure); ok {
-				eachInstr(mc.Fn.(*ssa.Function), func(_ *ssa.BasicBlock, i ssa.Instruction) {
-					if st, ok := i.(*ssa.Store); ok {
-						if fv, ok := st.Addr.(*ssa.FreeVar); ok && isErrorType(fv.Type().(*types.Pointer).Elem()) && !isNilConst(st.Val) {
-							setsErr = true
-						}
-					}
-				})
+		var holder *ssa.Function
+		silent := ""
+		var fns []*ssa.Function
+		for g := range repoReach(p, f) {
+			if fnPkgPath(g) == fnPkgPath(f) {
+				fns = append(fns, g)
 			}
 		}
-		c.Cond(len(bs) > 0 && setsErr, "REFUSE-WITH-ERROR", fnName(f)+"|panic becomes an error", p.pos(f.Pos()),
-			"Normalize recovers converter panics and assigns a non-nil error result", "Normalize no longer converts converter panics into an error")
+		sort.Slice(fns, func(i, j int) bool { return fnName(fns[i]) < fnName(fns[j]) })
+		for _, g := range fns {
+			if len(recoverBarriers(g)) > 0 && holder == nil {
+				holder = g
+			}
+			eachInstr(g, func(_ *ssa.BasicBlock, i ssa.Instruction) {
+				if d, ok := i.(*ssa.Defer); ok {
+					if why, bad := silentGuards[d]; bad {
+						silent = fnName(g) + ": " + why
+					}
+				}
+			})
+		}
+		detail := "no reporting recover barrier between Normalize and the converters: Normalize no longer converts converter panics into an error"
+		if silent != "" {
+			detail = "Normalize no longer converts converter panics into an error — " + silent
+		}
+		c.Cond(holder != nil && silent == "", "REFUSE-WITH-ERROR", fnName(f)+"|panic becomes an error", p.pos(f.Pos()),
+			"converter panics are recovered and assigned to the named error result on the way from Normalize", detail)
 	}
 }
 
